@@ -20,6 +20,7 @@ package store
 
 import (
 	"context"
+	"sync"
 
 	"github.com/cockroachdb/errors"
 	"github.com/samber/lo"
@@ -98,7 +99,13 @@ func UpdateTaskState(taskInfoStore api.MetaStore[*meta.TaskInfo], taskID string,
 	return nil
 }
 
+// positionLock serializes the read-modify-write cycles on the position records. A record holds the checkpoints of
+// all channels of a collection, the consumers of different downstream channels and the event loop update it concurrently.
+var positionLock sync.Mutex
+
 func UpdateTaskCollectionPosition(taskPositionStore api.MetaStore[*meta.TaskCollectionPosition], taskID string, collectionID int64, collectionName string, pChannelName string, position, opPosition, targetPosition *meta.PositionInfo) error {
+	positionLock.Lock()
+	defer positionLock.Unlock()
 	ctx := context.Background()
 	positions, err := taskPositionStore.Get(ctx, &meta.TaskCollectionPosition{TaskID: taskID, CollectionID: collectionID}, nil)
 	if err != nil {
@@ -183,6 +190,8 @@ func UpdateTaskCollectionPosition(taskPositionStore api.MetaStore[*meta.TaskColl
 }
 
 func UpdateDropStateTaskCollectionPosition(taskPositionStore api.MetaStore[*meta.TaskCollectionPosition], taskID string, collectionID int64) error {
+	positionLock.Lock()
+	defer positionLock.Unlock()
 	ctx := context.Background()
 	positions, err := taskPositionStore.Get(ctx, &meta.TaskCollectionPosition{TaskID: taskID, CollectionID: collectionID}, nil)
 	if err != nil {
